@@ -69,6 +69,9 @@ structure St where
   cells : List Int
   cellW : List VV
   cellR : List VV
+  /-- open read sections of each cell (`crdb` … `crde`) and whether a write section is open -/
+  cellOpen : List Nat
+  cellWOpen : List Bool
   mutex : List (Option Nat)
   mutexRel : List VV
   rwWriter : List (Option Nat)
@@ -100,7 +103,8 @@ def init (p : Prog) : St :=
   let z := fun n => List.replicate n VV.zero
   { ths := (List.range p.threads.length).map fun i => { started := i == 0 }
     atoms := List.replicate c.nAtomics 0, atomRel := z c.nAtomics
-    cells := List.replicate c.nCells 0, cellW := z c.nCells, cellR := z c.nCells
+    cells := List.replicate c.nCells 0, cellW := z c.nCells, cellR := z c.nCells,
+    cellOpen := List.replicate c.nCells 0, cellWOpen := List.replicate c.nCells false
     mutex := List.replicate c.nMutexes none, mutexRel := z c.nMutexes
     rwWriter := List.replicate c.nRwlocks none, rwReaders := List.replicate c.nRwlocks []
     rwRel := z c.nRwlocks
@@ -290,14 +294,32 @@ def step (p : Prog) (s : St) (t : Nat) : List St :=
         else s
       [s.ret t r]
     | .fence _ => [s.ret t .unit]
-    | .cellRead c =>
+    | .cellRead c | .cellReadBegin c =>
+      -- an access while a conflicting section is open is concurrent with it: a race
+      if s.cellWOpen.getD c false then [s.stop (.race 9)] else
       if !(s.cellW.getD c VV.zero).ble (s.vc t) then [s.stop (.race 9)] else
-      [({ s with cellR := s.cellR.set c ((s.cellR.getD c VV.zero).join (s.vc t)) }).ret t
-        (.val (s.cells.getD c 0))]
-    | .cellWrite c v =>
+      let s := { s with cellR := s.cellR.set c ((s.cellR.getD c VV.zero).join (s.vc t)) }
+      let s := match op with
+        | .cellReadBegin _ => { s with cellOpen := s.cellOpen.set c (s.cellOpen.getD c 0 + 1) }
+        | _ => s
+      [s.ret t (.val (s.cells.getD c 0))]
+    | .cellReadEnd c =>
+      -- the read lasts until here
+      [({ s with cellOpen := s.cellOpen.set c (s.cellOpen.getD c 0 - 1),
+                 cellR := s.cellR.set c ((s.cellR.getD c VV.zero).join (s.vc t)) }).ret t .unit]
+    | .cellWrite c v | .cellWriteBegin c v =>
+      if s.cellWOpen.getD c false then [s.stop (.race 10)] else
+      if s.cellOpen.getD c 0 != 0 then [s.stop (.race 11)] else
       if !(s.cellW.getD c VV.zero).ble (s.vc t) then [s.stop (.race 10)] else
       if !(s.cellR.getD c VV.zero).ble (s.vc t) then [s.stop (.race 11)] else
-      [({ s with cells := s.cells.set c v
+      let s := { s with cells := s.cells.set c v
+                        cellW := s.cellW.set c ((s.cellW.getD c VV.zero).join (s.vc t)) }
+      let s := match op with
+        | .cellWriteBegin .. => { s with cellWOpen := s.cellWOpen.set c true }
+        | _ => s
+      [s.ret t .unit]
+    | .cellWriteEnd c =>
+      [({ s with cellWOpen := s.cellWOpen.set c false,
                  cellW := s.cellW.set c ((s.cellW.getD c VV.zero).join (s.vc t)) }).ret t .unit]
     | .lock m =>
       let s := { s with mutex := s.mutex.set m (some t) }
